@@ -78,6 +78,9 @@ type Recorder struct {
 	// several slots), also run common.ProcessSlots on a copy and log it as a Probe event.
 	ProbeSlots bool
 
+	// LastSlot is the slot of the last event written (for crash reports)
+	LastSlot int
+
 	unvalidated func() (*absstate.State, bool)
 	negPre      *absstate.State
 }
@@ -331,6 +334,7 @@ func (r *Recorder) ProcessSlots(ctx context.Context, spec *common.Spec, epc *com
 		}
 		slots = append(slots, so)
 	}
+	r.LastSlot = int(to)
 	ev := &slotsEvent{Ev: "Slots", To: int(to), Oracle: map[string]interface{}{"slots": slots}}
 	var ret error
 	func() {
